@@ -12,7 +12,7 @@ VARIABLE i
 Init == i = 1
 Next == i <= Len(Rows) /\ i' = i + 1
 
-DefaultValue == VInt(77)
+DefaultValue == VC("list", <<VInt(77), VTarg(<<>>)>>)          \* Match(p, default=[77, T])
 
 \* one observed call against one predicted outcome
 Judge(o, ob) ==
@@ -33,6 +33,8 @@ Verdict(r) ==
      ELSE IF Judge(o, ob.verify) # "" THEN "verify-" \o Judge(o, ob.verify)
      ELSE IF ob.matches_raised \/ ob.matches # o.ok THEN "matches"
      ELSE IF Judge(od, ob.default) # "" THEN "default-" \o Judge(od, ob.default)
+     \* the same Match object again, after the caller mutated the first result
+     ELSE IF ob.has_again /\ Judge(EvAgain("auto", t, t, PMatch(p, FALSE, VNone)), ob.again) # "" THEN "again"
      \* the laws, on the observation itself
      ELSE IF Clean(o) /\ (ob.glom.ok # Holds("match", t, p)) THEN "law-conforms"
      ELSE IF ob.glom.ok /\ ~HasNodeDefault(p) /\ ~Extends(ob.glom.v, t) THEN "law-unchanged"
